@@ -102,6 +102,12 @@ func backendOps(c *Case, d *mapDriver, keys [][]byte, nops int) {
 			n := []int{150, 700, 5000, 12000}[c.Weighted("bulk-n", 4, 3, 2, 1)]
 			d.bulk(n, c.Weighted("bulk-same-shard", 2, 1) == 1, callTTLs[c.Pick("ttl", len(callTTLs))])
 			d.compareAll()
+
+			// most of the population goes again, key by key (containers that shrink after mass deletions)
+			if c.Weighted("bulk-then-delete-most", 2, 1) == 1 {
+				d.bulkDelete([]float64{0.8, 0.97}[c.Pick("share", 2)])
+				d.compareAll()
+			}
 		case 14: // a long history that leaves the contents unchanged
 			d.churn(sameShardPool[c.Pick("churn-key", 3)], []int{20, 300, 1100, 2500}[c.Weighted("churn-n", 3, 2, 2, 1)])
 		case 12: // label a key in the backend's invalidation index / invalidate the label
